@@ -257,6 +257,11 @@ func scenarioCfg(cfg *scenCfg) int {
 	hang := false
 	panicked := ""
 	last := -1
+	stepNo := 0
+	lastWordOp := map[int]int{} // thread -> step number of its latest operation on the state word
+	closeStep := map[int]int{}  // closed region index -> step number at which it was closed
+	evSeen := 0
+	faultsKnown, faultsNew := 0, 0
 	allDone := func() bool {
 		for i := range specs {
 			if tids[i] < 0 || !s.Done(tids[i]) {
@@ -329,7 +334,32 @@ func scenarioCfg(cfg *scenCfg) int {
 		if info.Panic != "" {
 			panicked = info.Panic
 		}
+		stepNo++
 		after := w.observe()
+		for r := before.nclosed; r < after.nclosed; r++ {
+			closeStep[r] = stepNo
+		}
+		// classify accesses through a closed mapping made during this step: the
+		// known finding is an access by a thread that entered its reader / flush
+		// section (its latest state-word operation) BEFORE the mapping was closed
+		for ; evSeen < len(s.Events); evSeen++ {
+			e := s.Events[evSeen]
+			if !strings.HasPrefix(e, "USE-AFTER-UNMAP") {
+				continue
+			}
+			reg := -1
+			if k := strings.Index(e, "region="); k >= 0 {
+				reg, _ = strconv.Atoi(e[k+7:])
+			}
+			if cs, ok := closeStep[reg]; ok && lastWordOp[i] > cs {
+				faultsNew++
+			} else {
+				faultsKnown++
+			}
+		}
+		if !spawn && preAddr == counter.VerifStateAddr(w.c) {
+			lastWordOp[i] = stepNo
+		}
 		rel := spawn || w.relevant(preAddr) || after != before
 		if debug {
 			fmt.Fprintf(os.Stderr, "  t%d %-5s spawn=%v op=%s@%x rel=%v -> word=%x ptr=%d cur=%d pers=%d closed=%d next=%s done=%v\n",
@@ -343,14 +373,12 @@ func scenarioCfg(cfg *scenCfg) int {
 			break
 		}
 	}
-	faults := 0
-	for _, e := range s.Events {
-		if strings.HasPrefix(e, "USE-AFTER-UNMAP") {
-			faults++
-		}
-	}
+	faults := faultsKnown
 	if faults > 0 {
 		out.Note("use-after-unmap")
+	}
+	if faultsNew > 0 {
+		out.Note("entered-through-closed-mapping")
 	}
 	status := "ok"
 	if hang {
@@ -359,7 +387,7 @@ func scenarioCfg(cfg *scenCfg) int {
 		status = "panic"
 		fmt.Fprintln(os.Stderr, panicked)
 	}
-	fields := []string{"conc", kind, status, U(init0.word), I(init0.ptr), I(init0.cur), U(init0.persisted), I(int64(faults)), I(int64(len(specs)))}
+	fields := []string{"conc", kind, status, U(init0.word), I(init0.ptr), I(init0.cur), U(init0.persisted), I(int64(faults)), I(int64(faultsNew)), I(int64(len(specs)))}
 	for _, sp := range specs {
 		fields = append(fields, sp.kind, U(sp.amt))
 	}
